@@ -193,10 +193,14 @@ func (o *Oracle) afterStoreLogs(inc *Inc, ents []Ent) {
 	for _, e := range ents {
 		// terms never decrease along one log
 		if p, ok := d.ent(e.Index - 1); ok && p.Term > e.Term {
-			w.violate("C04", "C04/term-decreases-along-log", "%s log: entry %d has term %d after entry %d with term %d", inc.tag, e.Index, e.Term, p.Index, p.Term)
+			v := w.violate("C04", "C04/term-decreases-along-log", "%s log: entry %d has term %d after entry %d with term %d", inc.tag, e.Index, e.Term, p.Index, p.Term)
+			// the earlier entry lies at or below the server's newest snapshot: a stale leftover
+			// of the old log (same defect as C04/logs-diverge-below-common-entry below a snapshot)
+			v.Facts["below_a_snapshot"] = fmt.Sprint(p.Index <= d.snapIndex())
 		}
 		if nx, ok := d.ent(e.Index + 1); ok && nx.Term < e.Term {
-			w.violate("C04", "C04/term-decreases-along-log", "%s log: entry %d has term %d before entry %d with term %d", inc.tag, e.Index, e.Term, nx.Index, nx.Term)
+			v := w.violate("C04", "C04/term-decreases-along-log", "%s log: entry %d has term %d before entry %d with term %d", inc.tag, e.Index, e.Term, nx.Index, nx.Term)
+			v.Facts["below_a_snapshot"] = fmt.Sprint(e.Index <= d.snapIndex())
 		}
 		if e.Type == raft.LogConfiguration {
 			o.onConfigStored(inc, e)
@@ -313,9 +317,15 @@ func (o *Oracle) beforeDeleteRange(inc *Inc, min, max uint64) {
 	prefix := lo <= d.first && !whole
 	suffix := hi >= d.last && !whole
 	reset := w.cfg.StoreFlavour != FlavourPlain && whole && (o.installing[inc.node.idx] > 0 || o.userRestoring[inc.node.idx] > 0)
+	// the reset that a snapshot install owed (it failed then, or the server crashed before it):
+	// the whole log lies strictly below the newest durable snapshot, which only an installed
+	// snapshot can produce, and the store cannot hold the gap
+	deferred := w.cfg.StoreFlavour != FlavourPlain && whole && d.last < snapIdx
 	switch {
 	case reset:
 		w.stats.probe("wholesale_log_reset")
+	case deferred:
+		w.stats.probe("deferred_log_reset")
 	case prefix || (whole && hi <= snapIdx):
 		w.stats.probe("prefix_compaction")
 		if hi > snapIdx {
